@@ -150,8 +150,17 @@ def r17c(chk, rid='R17.c'):
                     n += 1
                     ok = 'normalize(v)' in text(c)
                     chk.ob(rid, MQ, 'MediaQuery._setMediaText', f'`{text(c)[:60]}` uses the normalised value', ok, 'keyword recognised in lower case only')
-    if n < 4:
+    if n < 3:
         raise AnalysisError('MediaQuery productions not recognised')
+    # a query that continues with `and (...)` is not a simple media type: the AND production
+    # behind the media type must mark it, otherwise the list treats `tv and (color)` as plain tv
+    ands = [c for c in ast.walk(fn) if isinstance(c, ast.Call) and call_name(c).endswith('Prod') and any(k.arg == 'name' and const(k.value) == 'AND' for k in c.keywords)]
+    marked = [c for c in ands if any(k.arg == 'toStore' and const(k.value) == 'not simple' for k in c.keywords)]
+    chk.ob(rid, MQ, 'MediaQuery._setMediaText', "the AND production after a media type stores 'not simple'", bool(ands) and bool(marked),
+           "`tv and (color)` reports mediaType 'tv': duplicate filtering and the 'all' collapse of the media list drop feature queries")
+    only = [c for c in ast.walk(fn) if isinstance(c, ast.Call) and call_name(c).endswith('Prod') and any(k.arg == 'name' and const(k.value) == 'ONLY|NOT' for k in c.keywords)]
+    chk.ob(rid, MQ, 'MediaQuery._setMediaText', "the ONLY|NOT production stores 'not simple'", bool(only) and all(any(k.arg == 'toStore' and const(k.value) == 'not simple' for k in c.keywords) for c in only), '')
+    chk.ob(rid, MQ, 'MediaQuery._setMediaText', 'mediaType is set only for simple queries', "if 'not simple' not in store:" in ast.unparse(fn), '')
     src = ast.unparse(fn)
     chk.ob(rid, MQ, 'MediaQuery._setMediaText', 'the media type production stops and hands back on the first non-matching token', "name='media_type'" in src and 'stopIfNoMoreMatch=True' in src, '')
     mt = m.class_assign('MediaQuery', 'MEDIA_TYPES')
